@@ -28,9 +28,9 @@ Definition sk (i : instr) : list key :=
       | Some (it, true) => if fin_of (r_f r) && negb (it_tomb it) then [rk] else []
       | _ => []
       end
-  | IRcvEnq r rk => if fin_of (r_f r) then [r_own r; rk] else []
+  | IRcvEnq r rk _ => if fin_of (r_f r) then [r_own r; rk] else []
   | IEntomb t (FromFail _) => [t]
-  | IDelete t => [t]
+  | IDelete t _ => [t]
   | _ => []
   end.
 
@@ -362,7 +362,7 @@ Qed.
 Definition is_pure (i : instr) : bool :=
   match i with
   | IStart _ _ _ | ICanHandle _ _ _ _ | IGetDest _ _ _ _ | IRemoteCan _ _ _ _ _ | ICb _ _ | IDec _ | ICheck _
-  | ISendErr _ _ _ | IConnClose _ | INcChk _ _ _ _ _ | IRcvChk _ _ _ | IRcvEnq _ _ => true
+  | ISendErr _ _ _ | IConnClose _ | INcChk _ _ _ _ _ | IRcvChk _ _ _ | IRcvEnq _ _ _ => true
   | _ => false
   end.
 
@@ -442,7 +442,7 @@ Qed.
 
 Lemma after_sent_owes_own : forall r, fin_of (r_f r) = true -> exists j, In j (after_sent r) /\ In (r_own r) (owes j).
 Proof.
-  intros r Hf. exists (IDelete (r_own r)). unfold after_sent. rewrite Hf. split; [left; reflexivity|left; reflexivity].
+  intros r Hf. exists (IDelete (r_own r) (r_d r, f_id (r_f r))). unfold after_sent. rewrite Hf. split; [left; reflexivity|left; reflexivity].
 Qed.
 
 Ltac in_cases H :=
@@ -592,7 +592,7 @@ Proof.
         -- intros j t Hj Ht. in_cases Hj; try contradiction. cbn [sk] in *.
            destruct (fin_of (r_f r)) eqn:Ef; [|contradiction]. rewrite (Hst eq_refl), Et. cbn.
            destruct Ht as [<-|[<-|[]]]; [left; reflexivity|right; left; reflexivity].
-        -- intros t Ht. exists (IRcvEnq r rk). split; [apply in_or_app; right; left; reflexivity|].
+        -- intros t Ht. exists (IRcvEnq r rk (it_dest it, it_remap it)). split; [apply in_or_app; right; left; reflexivity|].
            unfold owes in *. rewrite app_nil_r in *. cbn [sk] in *. apply in_app_or in Ht.
            destruct (fin_of (r_f r)) eqn:Ef.
            ++ destruct Ht as [[<-|[]]|Ht]; [left; reflexivity|]. destruct stopped; [|contradiction]. rewrite Et in Ht. cbn in Ht.
@@ -620,7 +620,7 @@ Proof.
     + intros t Ht. unfold owes in Ht. rewrite app_nil_r in Ht. cbn [sk] in Ht.
       destruct (fin_of (r_f r)) eqn:Ef; [|contradiction]. destruct Ht as [<-|[<-|[]]].
       * destruct (after_sent_owes_own r Ef) as (j&Hj&Ho). exists j. split; [apply in_or_app; right; exact Hj|exact Ho].
-      * exists (IDelete rk). split; [apply in_or_app; left; left; reflexivity|left; reflexivity].
+      * exists (IDelete rk lk). split; [apply in_or_app; left; left; reflexivity|left; reflexivity].
     + intros k0 f0 Hj. apply in_app_or in Hj. destruct Hj as [Hj|Hj]; [in_cases Hj; discriminate|].
       destruct (after_sent_shape _ _ Hj) as (_&_&_&D). eapply D. reflexivity.
     + intros j Hj. in_cases Hj; split; reflexivity.
@@ -804,7 +804,7 @@ Proof. intros t its1 z0 z [->|(->&_)]; reflexivity. Qed.
 Lemma TInv_close_step : forall st st1 th i rest pushed t,
   Inv st -> TInv st ->
   lookup tid_eqb th (threads st) = Some (i :: rest) ->
-  (i = IDelete t \/ exists s, i = IEntomb t s) ->
+  ((exists lk, i = IDelete t lk) \/ exists s, i = IEntomb t s) ->
   seen st1 = seen st -> next_tm st1 = next_tm st -> panicked st1 = panicked st ->
   threads st1 = threads st -> conns st1 = conns st ->
   (forall t', In t' (gcs st) -> In t' (gcs st1)) ->
@@ -819,9 +819,9 @@ Lemma TInv_close_step : forall st st1 th i rest pushed t,
 Proof.
   intros st st1 th i rest pushed t HI HT Hl Hi Hsn Hntm Hpan Hth Hcs Hgcs Hback Hfwd Hio Hit Hps.
   pose proof (lookup_in tid_eqb tid_eqb_ok _ _ _ Hl) as Hin0.
-  assert (Hitr : is_trun i = false) by (destruct Hi as [->|[s ->]]; reflexivity).
+  assert (Hitr : is_trun i = false) by (destruct Hi as [[lk0 ->]|[s ->]]; reflexivity).
   assert (Howes_i : forall t', In t' (owes i) -> t' = t).
-  { intros t' Ht'. destruct Hi as [->|[s ->]]; [destruct Ht' as [<-|[]]; reflexivity|].
+  { intros t' Ht'. destruct Hi as [[lk0 ->]|[s ->]]; [destruct Ht' as [<-|[]]; reflexivity|].
     destruct s; cbn in Ht'; [destruct Ht' as [<-|[]]; reflexivity|contradiction]. }
   assert (Hthne : forall tm', lookup tid_eqb (TT tm') (threads st) = Some [ITimerRun tm'] -> TT tm' <> th).
   { intros tm' Hl' Heq. subst th. rewrite Hl in Hl'. inversion Hl'. subst i. discriminate. }
@@ -920,7 +920,7 @@ Proof.
       pose proof (in_lookup tid_eqb tid_eqb_ok _ _ _ (inv_threads_nd _ HI) Hin1) as Hl1. rewrite Hl in Hl1. inversion Hl1. subst code0.
       destruct Hpd as [Hp|(o&r&Hp)]; inversion Hp; subst i.
       * discriminate.
-      * destruct Hi as [Hc|[s Hc]]; [discriminate|]. inversion Hc. apply Hne. congruence.
+      * destruct Hi as [[lk0 Hc]|[s Hc]]; [discriminate|]. inversion Hc. apply Hne. congruence.
     + right. right. split; [exact Hst|]. destruct (tid_eqb th0 th) eqn:Eth.
       * apply tid_eqb_ok in Eth. subst th0.
         pose proof (in_lookup tid_eqb tid_eqb_ok _ _ _ (inv_threads_nd _ HI) Hin1) as Hl1. rewrite Hl in Hl1. inversion Hl1. subst code0.
@@ -942,14 +942,14 @@ Qed.
 (* the instruction at the head of a thread that is about to Entomb/Delete key t: the timer
    with that key is inactive *)
 Lemma close_timer : forall st th i rest t, TInv st ->
-  In (th, i :: rest) (threads st) -> (i = IDelete t \/ exists s, i = IEntomb t s) ->
+  In (th, i :: rest) (threads st) -> ((exists lk, i = IDelete t lk) \/ exists s, i = IEntomb t s) ->
   exists tm x, zlookup tm (timers st) = Some x /\ tm_key x = t /\ tm_active x = false /\ tm_armed x = false.
 Proof.
   intros st th i rest t HT Hin Hi.
   assert (Hsk : In t (sk i) -> exists tm x, zlookup tm (timers st) = Some x /\ tm_key x = t /\ tm_active x = false /\ tm_armed x = false).
   { intro Hs. destruct (t_sk _ HT th _ i t Hin (or_introl eq_refl) Hs) as (tm&x&Hx&Hk&Hst).
     destruct (t_phase _ HT _ _ Hx) as (_&P2&_). destruct (P2 Hst) as [A B]. exists tm, x. repeat split; assumption. }
-  destruct Hi as [->|[s ->]]; [apply Hsk; left; reflexivity|].
+  destruct Hi as [[lk0 ->]|[s ->]]; [apply Hsk; left; reflexivity|].
   destruct s as [r|o]; [apply Hsk; left; reflexivity|].
   pose proof (t_code _ HT _ _ Hin) as Hc. cbn [tcode_ok] in Hc. destruct Hc as [_ (tm&x&_&Hx&Hk&Hac&_&Har)].
   exists tm, x. repeat split; assumption.
@@ -972,7 +972,7 @@ Qed.
 Lemma TInv_delete_step : forall st st1 th i rest pushed t it,
   Inv st -> TInv st ->
   lookup tid_eqb th (threads st) = Some (i :: rest) ->
-  (i = IDelete t \/ exists s, i = IEntomb t s) ->
+  ((exists lk, i = IDelete t lk) \/ exists s, i = IEntomb t s) ->
   klookup t (items st) = Some it ->
   st1 = timer_release (set_items st (kremove t (items st))) (it_tm it) ->
   simple_code pushed ->
@@ -1003,22 +1003,61 @@ Proof.
   - intros it' Hc. exfalso. eapply Hnone. exact Hc.
 Qed.
 
-Lemma TInv_step_IDelete : forall cf st th t rest room st1 pushed, Inv st -> TInv st ->
-  lookup tid_eqb th (threads st) = Some (IDelete t :: rest) ->
-  exec cf st (IDelete t) room = (st1, pushed) -> TInv (set_thread st1 th (pushed ++ rest)).
+(* ---------------------------------------------------------------- looked-up identities
+
+   finishRelayItem deletes the item under the id only if it still belongs to the call the frame
+   path looked up (relayItems.deleteCall: same destination relayer, same destination-side id).
+   [refs j]: the (key, identity) pairs instruction j carries: the identity of an item it looked
+   up under that key.  LInv: a key an instruction refers to has been allocated (a timer with that
+   key exists, so no later Add can use the key), and whatever item is found under the key has the
+   identity the instruction carries -- in fresh-id schedules the check of deleteCall always
+   succeeds and finishRelayItem is the Delete it was before. *)
+Definition refs (j : instr) : list (key * (Z * Z)) :=
+  match j with
+  | INcChk _ _ _ own (Some (it, _)) => [(own, (it_dest it, it_remap it))]
+  | IRcvGet r => [(r_own r, (r_d r, f_id (r_f r)))]
+  | IRcvChk r rk g =>
+      (r_own r, (r_d r, f_id (r_f r))) ::
+      match g with Some (it, _) => [(rk, (it_dest it, it_remap it))] | None => [] end
+  | IRcvEnq r rk lk => [(r_own r, (r_d r, f_id (r_f r))); (rk, lk)]
+  | IDelete t lk => [(t, lk)]
+  | _ => []
+  end.
+
+Definition ref_ok (tms : list (Z * timer)) (its : list (key * item)) (t : key) (lk : Z * Z) : Prop :=
+  (exists tm x, zlookup tm tms = Some x /\ tm_key x = t) /\
+  (forall it, klookup t its = Some it -> it_dest it = fst lk /\ it_remap it = snd lk).
+
+Definition LInv (st : state) : Prop :=
+  forall th code j t lk, In (th, code) (threads st) -> In j code -> In (t, lk) (refs j) ->
+    ref_ok (timers st) (items st) t lk.
+
+Lemma LInv_delete_is_delete : forall st th t lk rest, LInv st ->
+  lookup tid_eqb th (threads st) = Some (IDelete t lk :: rest) ->
+  items_delete_call st t lk = items_delete st t.
 Proof.
-  intros cf st th t rest room st1 pushed HI HT Hl H. cbn [exec] in H. unfold items_delete in H.
+  intros st th t lk rest HL Hl. apply items_delete_call_match.
+  pose proof (lookup_in tid_eqb tid_eqb_ok _ _ _ Hl) as Hin.
+  destruct (HL th _ (IDelete t lk) t lk Hin (or_introl eq_refl) (or_introl eq_refl)) as [_ H]. exact H.
+Qed.
+
+Lemma TInv_step_IDelete : forall cf st th t lk rest room st1 pushed, Inv st -> TInv st -> LInv st ->
+  lookup tid_eqb th (threads st) = Some (IDelete t lk :: rest) ->
+  exec cf st (IDelete t lk) room = (st1, pushed) -> TInv (set_thread st1 th (pushed ++ rest)).
+Proof.
+  intros cf st th t lk rest room st1 pushed HI HT HL Hl H. cbn [exec] in H.
+  rewrite (LInv_delete_is_delete st th t lk rest HL Hl) in H. unfold items_delete in H.
   destruct (klookup t (items st)) as [it|] eqn:El.
   - cbn [fst snd] in H.
-    eapply (TInv_delete_step st _ th (IDelete t) rest pushed t it); try eassumption.
-    + left. reflexivity.
+    eapply (TInv_delete_step st _ th (IDelete t lk) rest pushed t it); try eassumption.
+    + left. exists lk. reflexivity.
     + destruct (negb (it_tomb it)); inversion H; reflexivity.
     + destruct (negb (it_tomb it)); inversion H; [|apply simple_nil].
       intros j Hj. apply in_app_or in Hj. destruct Hj as [Hj|[<-|[]]]; [|repeat split; intros; discriminate].
       destruct (it_orig it); [|contradiction]. destruct Hj as [<-|[]]. repeat split; intros; discriminate.
   - inversion H. subst st1 pushed.
-    eapply (TInv_close_step st st th (IDelete t) rest [] t); try eassumption; try reflexivity.
-    + left. reflexivity.
+    eapply (TInv_close_step st st th (IDelete t lk) rest [] t); try eassumption; try reflexivity.
+    + left. exists lk. reflexivity.
     + intros t' Ht'. exact Ht'.
     + intros tm' z Hz. exists z. split; [exact Hz|left; reflexivity].
     + intros tm' z Hz. exists z. split; [exact Hz|left; reflexivity].
@@ -1032,7 +1071,7 @@ Lemma TInv_step_IEntomb : forall cf st th t s rest room st1 pushed, Inv st -> TI
 Proof.
   intros cf st th t s rest room st1 pushed HI HT Hl H. cbn [exec] in H. unfold items_entomb, items_delete in H.
   pose proof (lookup_in tid_eqb tid_eqb_ok _ _ _ Hl) as Hin0.
-  assert (Hi : IEntomb t s = IDelete t \/ exists s0, IEntomb t s = IEntomb t s0) by (right; exists s; reflexivity).
+  assert (Hi : (exists lk0, IEntomb t s = IDelete t lk0) \/ exists s0, IEntomb t s = IEntomb t s0) by (right; exists s; reflexivity).
   assert (Hsame : forall it, klookup t (items st) = None \/ (klookup t (items st) = Some it /\ it_tomb it = true) ->
                   TInv (set_thread st th ([] ++ rest))).
   { intros it Hcase.
@@ -1550,9 +1589,9 @@ Qed.
 
 (* ---------------------------------------------------------------- all steps *)
 
-Lemma step_tinv : forall cf st l st', Inv st -> TInv st -> fresh_label st l = true -> step cf st l = Some st' -> TInv st'.
+Lemma step_tinv : forall cf st l st', Inv st -> TInv st -> LInv st -> fresh_label st l = true -> step cf st l = Some st' -> TInv st'.
 Proof.
-  intros cf st l st' HI HT Hfresh H. destruct l as [k f e|th room|tm|t|k|k|k].
+  intros cf st l st' HI HT HL Hfresh H. destruct l as [k f e|th room|tm|t|k|k|k].
   - (* LArrive *)
     unfold step in H. rewrite (t_nopanic _ HT) in H. cbn [Z.eqb negb] in H.
     destruct (lookup tid_eqb (TR k) (threads st)) eqn:El; [discriminate|].
@@ -1613,12 +1652,271 @@ Proof.
   constructor; cbn; try (intros; contradiction); try (intros; discriminate). reflexivity.
 Qed.
 
-Theorem reach_both : forall cf ls st, run_fresh cf init ls = Some st -> Inv st /\ TInv st.
+(* ---------------------------------------------------------------- LInv is preserved (by every step, fresh id or not) *)
+
+Definition kmono (a b : list (Z * timer)) : Prop :=
+  forall tm x, zlookup tm a = Some x -> exists x', zlookup tm b = Some x' /\ tm_key x' = tm_key x.
+
+Lemma kmono_refl : forall a, kmono a a.
+Proof. intros a tm x H. exists x. split; [exact H|reflexivity]. Qed.
+
+Lemma kmono_same : forall a tm x0 y, zlookup tm a = Some x0 -> tm_key y = tm_key x0 -> kmono a (zinsert tm y a).
 Proof.
-  intros cf ls. assert (G : forall st0 st, Inv st0 -> TInv st0 -> run_fresh cf st0 ls = Some st -> Inv st /\ TInv st).
-  { induction ls as [|l r IH]; intros st0 st HI HT H; cbn in H.
-    - inversion H. subst. split; assumption.
-    - destruct (fresh_label st0 l) eqn:Ef; [|discriminate]. destruct (step cf st0 l) as [st1|] eqn:Es; [|discriminate].
-      eapply IH; [eapply step_inv; eassumption|eapply step_tinv; eassumption|exact H]. }
-  intros st H. eapply G; [apply Inv_init|apply TInv_init|exact H].
+  intros a tm x0 y H Hk tm' x Hx. rewrite zl_insert. destruct (tm' =? tm) eqn:E.
+  - apply Z.eqb_eq in E. subst. rewrite H in Hx. inversion Hx. subst. exists y. split; [reflexivity|exact Hk].
+  - exists x. split; [exact Hx|reflexivity].
 Qed.
+
+Lemma kmono_new : forall a tm y, zlookup tm a = None -> kmono a (zinsert tm y a).
+Proof.
+  intros a tm y H tm' x Hx. rewrite zl_insert. destruct (tm' =? tm) eqn:E.
+  - apply Z.eqb_eq in E. subst. congruence.
+  - exists x. split; [exact Hx|reflexivity].
+Qed.
+
+Lemma timer_stop_kmono : forall st tm st' b, timer_stop st tm = (st', b) -> kmono (timers st) (timers st').
+Proof.
+  intros st tm st' b H. unfold timer_stop in H. destruct (zlookup tm (timers st)) as [x|] eqn:E.
+  - destruct (tm_released x); [inversion H; apply kmono_refl|].
+    destruct (tm_stopped x); [inversion H; apply kmono_refl|].
+    destruct (tm_armed x); inversion H; [|apply kmono_refl]. cbn [set_timers timers]. eapply kmono_same; [exact E|reflexivity].
+  - inversion H. apply kmono_refl.
+Qed.
+
+Lemma timer_release_kmono : forall st tm, kmono (timers st) (timers (timer_release st tm)).
+Proof.
+  intros st tm. unfold timer_release. destruct (zlookup tm (timers st)) as [x|] eqn:E; [|apply kmono_refl].
+  destruct (tm_released x); [apply kmono_refl|]. destruct (tm_active x); [apply kmono_refl|].
+  cbn [set_timers timers]. eapply kmono_same; [exact E|reflexivity].
+Qed.
+
+Lemma items_get_kmono : forall st t stop st' g, items_get st t stop = (st', g) -> kmono (timers st) (timers st').
+Proof.
+  intros st t stop st' g H. unfold items_get in H. destruct (klookup t (items st)) as [it|]; [|inversion H; apply kmono_refl].
+  destruct stop; [|inversion H; apply kmono_refl].
+  destruct (timer_stop st (it_tm it)) as [s b] eqn:E. inversion H. subst. eapply timer_stop_kmono. exact E.
+Qed.
+
+Lemma items_delete_kmono : forall st t st' g, items_delete st t = (st', g) -> kmono (timers st) (timers st').
+Proof.
+  intros st t st' g H. unfold items_delete in H. destruct (klookup t (items st)) as [it|]; [|inversion H; apply kmono_refl].
+  inversion H. apply (timer_release_kmono (set_items st (kremove t (items st))) (it_tm it)).
+Qed.
+
+Lemma exec_kmono : forall cf st i room st1 pushed,
+  (forall tm x, zlookup tm (timers st) = Some x -> tm < next_tm st) ->
+  exec cf st i room = (st1, pushed) -> kmono (timers st) (timers st1).
+Proof.
+  intros cf st i room st1 pushed Hal H.
+  assert (Hnew : zlookup (next_tm st) (timers st) = None).
+  { destruct (zlookup (next_tm st) (timers st)) as [x|] eqn:E; [|reflexivity]. specialize (Hal _ _ E). lia. }
+  destruct (is_pure i) eqn:Ep.
+  { destruct (exec_pure_frame _ _ _ _ _ _ Ep H) as (F1&_). rewrite F1. apply kmono_refl. }
+  destruct i; try discriminate; cbn [exec] in H.
+  - unfold timer_new in H. cbn [fst snd] in H. inversion H. cbn. apply kmono_new. exact Hnew.
+  - unfold timer_new in H. cbn [fst snd] in H. inversion H. cbn. apply kmono_new. exact Hnew.
+  - destruct (frameTypeFor (f_mt f)); [|inversion H; apply kmono_refl].
+    match type of H with context [items_get ?a ?b ?cc] => destruct (items_get a b cc) as [st' g] eqn:E end.
+    inversion H. subst. eapply items_get_kmono. exact E.
+  - match type of H with context [items_get ?a ?b ?cc] => destruct (items_get a b cc) as [st' g] eqn:E end.
+    inversion H. subst. eapply items_get_kmono. exact E.
+  - destruct (items_get st t true) as [st' g] eqn:E. apply items_get_kmono in E.
+    destruct g as [[it [|]]|]; inversion H; subst; exact E.
+  - destruct (items_entomb cf st t) as [st' g] eqn:E.
+    assert (K : kmono (timers st) (timers st')).
+    { unfold items_entomb in E. destruct (cf_maxtombs cf <? tomb_count st (key_conn t) (key_dir t)); [eapply items_delete_kmono; exact E|].
+      destruct (klookup t (items st)) as [it|]; [|inversion E; apply kmono_refl].
+      destruct (it_tomb it); inversion E; apply kmono_refl. }
+    destruct g as [[it [|]]|]; inversion H; subst; exact K.
+  - destruct (items_delete_call st t lk) as [st' g] eqn:E.
+    assert (K : kmono (timers st) (timers st')).
+    { destruct (items_delete_call_cases st t lk) as [Ec|[Ec _]]; rewrite Ec in E; [eapply items_delete_kmono; exact E|inversion E; apply kmono_refl]. }
+    destruct g as [[it [|]]|]; inversion H; subst; exact K.
+  - destruct (zlookup tm (timers st)) as [x|] eqn:E; [|inversion H; apply kmono_refl].
+    destruct (tm_released x); inversion H; [apply kmono_refl|]. cbn [set_timers timers]. eapply kmono_same; [exact E|reflexivity].
+Qed.
+
+Lemma after_sent_refs : forall r j t lk, In j (after_sent r) -> In (t, lk) (refs j) ->
+  (t, lk) = (r_own r, (r_d r, f_id (r_f r))).
+Proof.
+  intros r j t lk Hj Ht. unfold after_sent in Hj. apply in_app_or in Hj. destruct Hj as [Hj|Hj].
+  - destruct (fin_of (r_f r)); [|contradiction]. destruct Hj as [<-|[]]. destruct Ht as [Ht|[]]. symmetry. exact Ht.
+  - destruct (0 <? r_more r); [|contradiction]. destruct Hj as [<-|[<-|[]]]; [contradiction|].
+    destruct Ht as [Ht|[]]. symmetry. exact Ht.
+Qed.
+
+(* where the references of a pushed instruction come from *)
+Lemma pushed_refs : forall cf st i room st1 pushed j t lk, exec cf st i room = (st1, pushed) ->
+  In j pushed -> In (t, lk) (refs j) ->
+  In (t, lk) (refs i) \/
+  (exists it, klookup t (items st) = Some it /\ lk = (it_dest it, it_remap it) /\ items st1 = items st) \/
+  (exists k f e c d did, i = IAddOrig k f e c d did /\ t = (k, 0, f_id f) /\ lk = (d, did)).
+Proof.
+  intros cf st i room st1 pushed j t lk H Hj Ht. destruct i; cbn [exec] in H.
+  - destruct (e_start e =? 0); inversion H; subst; clear H; in_cases Hj; contradiction.
+  - destruct (c_state (get_conn st k) =? c_connectionActive); inversion H; subst; clear H; in_cases Hj; contradiction.
+  - destruct (klookup (k, 0, f_id f) (items st)); [|destruct (e_dest e =? -1); [|destruct (e_dest e <? 0)]];
+      inversion H; subst; clear H; in_cases Hj; contradiction.
+  - destruct (c_state (get_conn st d) =? c_connectionActive); inversion H; subst; clear H; in_cases Hj; contradiction.
+  - unfold timer_new in H. cbn [fst snd] in H. inversion H; subst; clear H. in_cases Hj; contradiction.
+  - unfold timer_new in H. cbn [fst snd] in H. inversion H; subst; clear H. in_cases Hj; try contradiction.
+    right. right. destruct Ht as [Ht|[]]. inversion Ht. exists k, f, e, c, d, did. repeat split.
+  - inversion H; subst. contradiction.
+  - inversion H; subst. destruct Hj as [<-|[]]. contradiction.
+  - match type of H with (if ?b then _ else _) = _ => destruct b end; inversion H; subst; contradiction.
+  - destruct ((c_state (get_conn st k) =? c_connectionClosed) || negb room); inversion H; subst; contradiction.
+  - destruct (c_state (get_conn st k) =? c_connectionActive); inversion H; subst; contradiction.
+  - (* INcGet *)
+    destruct (frameTypeFor (f_mt f)) as [ft|]; [|inversion H; subst; contradiction].
+    match type of H with context [items_get ?a ?b ?cc] => destruct (items_get a b cc) as [st' g] eqn:E end.
+    inversion H; subst; clear H. destruct Hj as [<-|[]]. apply items_get_spec in E. destruct E as [(_&Hi&_) Em].
+    destruct g as [[it s]|]; [|contradiction]. destruct Ht as [Ht|[]]. inversion Ht. subst.
+    right. left. destruct (klookup (k, (if ft =? c_responseFrame then 1 else 0), f_id f) (items st)) as [it0|]; [|discriminate].
+    destruct Em as [b Hg]. inversion Hg. subst. eexists. split; [reflexivity|split; [reflexivity|exact Hi]].
+  - (* INcChk *)
+    destruct g as [[it s]|]; [|inversion H; subst; contradiction].
+    destruct (it_tomb it || (fin_of f && negb s)); inversion H; subst; clear H; [contradiction|].
+    left. in_cases Hj; try contradiction. destruct Ht as [Ht|[]]. inversion Ht. subst. cbn. left. reflexivity.
+  - (* IRcvGet *)
+    match type of H with context [items_get ?a ?b ?cc] => destruct (items_get a b cc) as [st' g] eqn:E end.
+    inversion H; subst; clear H. destruct Hj as [<-|[]]. apply items_get_spec in E. destruct E as [(_&Hi&_) Em].
+    destruct Ht as [Ht|Ht]; [left; left; exact Ht|].
+    destruct g as [[it s]|]; [|contradiction]. destruct Ht as [Ht|[]]. inversion Ht. subst.
+    right. left. match type of Em with match klookup ?kk _ with _ => _ end => destruct (klookup kk (items st)) as [it0|] end; [|discriminate].
+    destruct Em as [b Hg]. inversion Hg. subst. eexists. split; [reflexivity|split; [reflexivity|exact Hi]].
+  - (* IRcvChk *)
+    left. destruct g as [[it s]|].
+    + destruct (it_tomb it || (fin_of (r_f r) && negb s)); inversion H; subst; clear H.
+      * rewrite (after_sent_refs _ _ _ _ Hj Ht). left. reflexivity.
+      * apply in_app_or in Hj. destruct Hj as [Hj|[<-|[]]].
+        -- in_cases Hj; contradiction.
+        -- destruct Ht as [Ht|[Ht|[]]]; [left; exact Ht|right; left; exact Ht].
+    + inversion H; subst; clear H. unfold after_unsent in Hj. destruct Hj as [<-|[]]. contradiction.
+  - (* IRcvEnq *)
+    left. destruct room; inversion H; subst; clear H.
+    + apply in_app_or in Hj. destruct Hj as [Hj|Hj].
+      * destruct (fin_of (r_f r)); [|contradiction]. destruct Hj as [<-|[]]. destruct Ht as [Ht|[]]. right. left. exact Ht.
+      * rewrite (after_sent_refs _ _ _ _ Hj Ht). left. reflexivity.
+    + unfold after_unsent in Hj. in_cases Hj; contradiction.
+  - destruct (items_get st t0 true) as [st' g]. destruct g as [[it [|]]|]; inversion H; subst; try contradiction.
+    destruct Hj as [<-|[]]. contradiction.
+  - destruct (items_entomb cf st t0) as [st' g]. destruct g as [[it [|]]|]; inversion H; subst; try contradiction.
+    apply in_app_or in Hj. destruct Hj as [Hj|[<-|[]]]; [|contradiction].
+    destruct (match s with FromFail _ => it_orig it | FromTimeout o => o end); [|contradiction].
+    unfold orig_tail in Hj. destruct s; in_cases Hj; contradiction.
+  - destruct (items_delete_call st t0 lk0) as [st' g]. destruct g as [[it [|]]|]; inversion H; subst; try contradiction.
+    in_cases Hj; contradiction.
+  - destruct (zlookup tm (timers st)) as [x|]; [|inversion H; subst; contradiction].
+    destruct (tm_released x); inversion H; subst; try contradiction. destruct Hj as [<-|[]]. contradiction.
+Qed.
+
+Lemma ref_ok_exec : forall cf st th i rest room st1 pushed t lk, Inv st -> TInv st ->
+  lookup tid_eqb th (threads st) = Some (i :: rest) -> exec cf st i room = (st1, pushed) ->
+  ref_ok (timers st) (items st) t lk -> ref_ok (timers st1) (items st1) t lk.
+Proof.
+  intros cf st th i rest room st1 pushed t lk HI HT Hl E [(tm&x&Hx&Hk) Hid].
+  pose proof (lookup_in tid_eqb tid_eqb_ok _ _ _ Hl) as Hin0.
+  assert (Hkm : kmono (timers st) (timers st1)).
+  { eapply exec_kmono; [|exact E]. intros tm' x' Hx'. apply (t_alloc _ HT _ _ Hx'). }
+  split.
+  - destruct (Hkm _ _ Hx) as (x'&Hx'&Hk'). exists tm, x'. split; [exact Hx'|congruence].
+  - intros it Hit. apply (lookup_in key_eqb key_eqb_ok) in Hit.
+    destruct (exec_items_fields _ _ _ _ _ _ _ _ E Hit) as [(it0&Hin&_&Hd&Hr&_)|[(k&f&e&c&d&Hi&Ht&_)|(k&f&e&c&d&did&Hi&Ht&_)]].
+    + rewrite Hd, Hr. apply Hid. apply (in_lookup key_eqb key_eqb_ok _ _ _ (inv_items_nd _ HI)). exact Hin.
+    + exfalso. destruct (t_alloc _ HT _ _ Hx) as [_ [[H0 _]|[_ Hlt]]]; rewrite Hk, Ht in *; cbn in *; [discriminate|].
+      rewrite get_conn_getc in Hlt. lia.
+    + exfalso. subst i. eapply (t_adm _ HT th _ _ k f Hin0 (or_introl eq_refl) eq_refl tm x Hx). congruence.
+Qed.
+
+Lemma LInv_step_lstep : forall cf st th i rest room st1 pushed, Inv st -> TInv st -> LInv st ->
+  lookup tid_eqb th (threads st) = Some (i :: rest) -> exec cf st i room = (st1, pushed) ->
+  LInv (set_thread st1 th (pushed ++ rest)).
+Proof.
+  intros cf st th i rest room st1 pushed HI HT HL Hl E.
+  pose proof (lookup_in tid_eqb tid_eqb_ok _ _ _ Hl) as Hin0.
+  assert (Hth : threads st1 = threads st).
+  { destruct (inv_code _ HI _ _ Hin0) as [Hf _]. inversion Hf as [|? ? Hiok _]. subst.
+    destruct (exec_eff _ _ th _ _ _ _ HI Hiok E) as (A&_). exact A. }
+  assert (Hold : forall t lk, ref_ok (timers st) (items st) t lk -> ref_ok (timers st1) (items st1) t lk).
+  { intros t lk. eapply ref_ok_exec; eassumption. }
+  intros th' code' j t lk Hin Hj Ht. cbn [set_thread set_threads timers items].
+  fold (threads (set_thread st1 th (pushed ++ rest))) in Hin.
+  apply set_thread_in in Hin. destruct Hin as [[-> ->]|[Hne Hin]].
+  - apply in_app_or in Hj. destruct Hj as [Hj|Hj].
+    + destruct (pushed_refs _ _ _ _ _ _ _ _ _ E Hj Ht) as [Hr|[(it&Hit&Hlk&Hits)|(k&f&e&c&d&did&Hi&Htt&Hlk)]].
+      * apply Hold. eapply (HL th _ i); [exact Hin0|left; reflexivity|exact Hr].
+      * apply Hold. split.
+        -- destruct (t_item _ HT _ _ (lookup_in key_eqb key_eqb_ok _ _ _ Hit)) as (x&Hx&Hk&_). exists (it_tm it), x. split; assumption.
+        -- intros it' Hit'. rewrite Hit in Hit'. inversion Hit'. subst. split; reflexivity.
+      * subst i t lk. cbn [exec] in E. unfold timer_new in E. cbn [fst snd] in E. inversion E. subst st1 pushed. split.
+        -- exists (next_tm st). eexists. cbn [set_items set_next_tm set_timers timers]. split; [rewrite zl_insert, Z.eqb_refl; reflexivity|reflexivity].
+        -- intros it Hit. cbn [set_items items] in Hit. rewrite (lookup_insert_eq key_eqb key_eqb_ok) in Hit. inversion Hit. split; reflexivity.
+    + apply Hold. eapply (HL th _ j); [exact Hin0|right; exact Hj|exact Ht].
+  - apply Hold. rewrite Hth in Hin. eapply HL; eassumption.
+Qed.
+
+Lemma LInv_ext : forall st st', LInv st -> kmono (timers st) (timers st') ->
+  (forall t it, klookup t (items st') = Some it -> klookup t (items st) = Some it) ->
+  (forall th code, In (th, code) (threads st') -> In (th, code) (threads st) \/ (forall j, In j code -> refs j = [])) ->
+  LInv st'.
+Proof.
+  intros st st' HL Hk Hi Hth th code j t lk Hin Hj Ht. destruct (Hth _ _ Hin) as [Hin0|Hno].
+  - destruct (HL _ _ _ _ _ Hin0 Hj Ht) as [(tm&x&Hx&Hkx) Hid]. split.
+    + destruct (Hk _ _ Hx) as (x'&Hx'&Hk'). exists tm, x'. split; [exact Hx'|congruence].
+    + intros it Hit. apply Hid. apply Hi. exact Hit.
+  - rewrite (Hno j Hj) in Ht. contradiction.
+Qed.
+
+Lemma LInv_step : forall cf st l st', Inv st -> TInv st -> LInv st -> step cf st l = Some st' -> LInv st'.
+Proof.
+  intros cf st l st' HI HT HL H. unfold step in H. rewrite (t_nopanic _ HT) in H. cbn [Z.eqb negb] in H.
+  destruct l as [k f e|th room|tm|t|k|k|k].
+  - destruct (lookup tid_eqb (TR k) (threads st)) eqn:El; [discriminate|].
+    destruct (relayRoute (f_mt f) (cf_cancel cf) =? 1); [|inversion H; subst; exact HL].
+    destruct (f_mt f =? c_messageTypeCallReq); inversion H; subst; clear H;
+      (eapply LInv_ext; [exact HL|apply kmono_refl|intros t it Hit; exact Hit|]);
+      intros th code Hin; apply set_thread_in in Hin; destruct Hin as [[-> ->]|[_ Hin]];
+      try (left; exact Hin); right; intros j [<-|[]]; reflexivity.
+  - destruct (lookup tid_eqb th (threads st)) as [[|i rest]|] eqn:El; try discriminate.
+    destruct (exec cf st i room) as [st1 pushed] eqn:E. inversion H. subst st'.
+    eapply LInv_step_lstep; eassumption.
+  - destruct (zlookup tm (timers st)) as [x|] eqn:Ex; [|discriminate].
+    destruct (tm_armed x && match lookup tid_eqb (TT tm) (threads st) with None => true | Some _ => false end); [|discriminate].
+    inversion H. subst. clear H. eapply LInv_ext; [exact HL| | |].
+    + cbn. eapply kmono_same; [exact Ex|reflexivity].
+    + intros t it Hit. exact Hit.
+    + intros th code Hin. apply set_thread_in in Hin. destruct Hin as [[-> ->]|[_ Hin]]; [right; intros j [<-|[]]; reflexivity|left; exact Hin].
+  - destruct (mem_key t (gcs st)); [|discriminate]. inversion H. subst. clear H.
+    destruct (items_delete_tomb_spec (set_gcs st (remove_one t (gcs st))) t) as (_&_&A&_&_&_&_&B).
+    eapply LInv_ext; [exact HL| | |].
+    + unfold items_delete_tomb. cbn [set_gcs items]. destruct (klookup t (items st)) as [it|]; [|apply kmono_refl].
+      destruct (it_tomb it); [|apply kmono_refl].
+      apply (timer_release_kmono (set_items (set_gcs st (remove_one t (gcs st))) (kremove t (items st))) (it_tm it)).
+    + intros t0 it0 Hit. cbn [set_gcs items] in B. destruct (klookup t (items st)) as [it|] eqn:El.
+      * destruct (it_tomb it); [|rewrite B in Hit; exact Hit]. rewrite B in Hit.
+        destruct (eqb_dec key_eqb key_eqb_ok t0 t) as [->|Hn]; [rewrite (lookup_remove_eq key_eqb key_eqb_ok) in Hit; discriminate|].
+        rewrite (lookup_remove_neq key_eqb key_eqb_ok) in Hit by exact Hn. exact Hit.
+      * rewrite B in Hit. exact Hit.
+    + intros th code Hin. rewrite A in Hin. left. exact Hin.
+  - destruct (c_state (get_conn st k) =? c_connectionActive); [|discriminate]. inversion H. subst. exact HL.
+  - inversion H. subst. exact HL.
+  - match type of H with (if ?b then _ else _) = _ => destruct b end; [|discriminate]. inversion H. subst. exact HL.
+Qed.
+
+Lemma LInv_init : LInv init.
+Proof. intros th code j t lk []. Qed.
+
+Lemma run_fresh_three : forall cf ls st0 st, Inv st0 -> TInv st0 -> LInv st0 -> run_fresh cf st0 ls = Some st ->
+  Inv st /\ TInv st /\ LInv st.
+Proof.
+  intros cf ls. induction ls as [|l r IH]; intros st0 st HI HT HL H; cbn in H.
+  - inversion H. subst. split; [assumption|split; assumption].
+  - destruct (fresh_label st0 l) eqn:Ef; [|discriminate]. destruct (step cf st0 l) as [st1|] eqn:Es; [|discriminate].
+    eapply IH; [eapply step_inv; eassumption|eapply step_tinv; eassumption|eapply LInv_step; eassumption|exact H].
+Qed.
+
+Theorem reach_three : forall cf ls st, run_fresh cf init ls = Some st -> Inv st /\ TInv st /\ LInv st.
+Proof. intros cf ls st H. eapply run_fresh_three; [apply Inv_init|apply TInv_init|apply LInv_init|exact H]. Qed.
+
+Theorem reach_both : forall cf ls st, run_fresh cf init ls = Some st -> Inv st /\ TInv st.
+Proof. intros cf ls st H. destruct (reach_three cf ls st H) as (A&B&_). split; assumption. Qed.
